@@ -230,6 +230,18 @@ func registerOverrides(e *Engine) {
 		}
 		return nil
 	})
+	e.reg(zz+"YieldAt", func(in *interp, fr *frame, a []value) value {
+		in.sch.yield("YieldAt")
+		name := in.sch.cur.label
+		if name == "" {
+			if in.sch.cur.id == 0 {
+				return nil // the harness's main thread is not gated
+			}
+			name = "?"
+		}
+		in.sch.schedLog = append(in.sch.schedLog, name+":"+in.str(a[0]))
+		return nil
+	})
 	e.reg(zz+"Go", func(in *interp, fr *frame, a []value) value {
 		in.spawnNamed(in.str(a[0]), "zzverif.Go", a[1], nil)
 		return nil
